@@ -530,7 +530,12 @@ func Encode(req int, op Op, nowNs int64) *Wire {
 				for _, kv := range s.Labels {
 					tags[kv[0]] = kv[1]
 				}
-				m := map[string]any{"traceId": hex.EncodeToString([]byte(x.TraceID)), "id": hex.EncodeToString([]byte(x.SpanID)), "name": x.Tag,
+				thex, shex := hex.EncodeToString([]byte(x.TraceID)), hex.EncodeToString([]byte(x.SpanID))
+				if ei%3 == 1 {
+					// ids without their leading zeroes (64-bit trace ids, lenient clients): the same ids
+					thex, shex = strings.TrimLeft(thex, "0"), strings.TrimLeft(shex, "0")
+				}
+				m := map[string]any{"traceId": thex, "id": shex, "name": x.Tag,
 					"timestamp": ee.ts / 1000, "duration": x.DurNs / 1000, "localEndpoint": map[string]any{"serviceName": fmt.Sprintf("svc%d", si)}, "tags": tags}
 				if ei%2 == 1 {
 					m["timestamp"] = strconv.FormatInt(ee.ts/1000, 10)
